@@ -75,7 +75,10 @@ def write_cfg(path, body, constants=None):
         if constants:
             f.write("CONSTANTS\n")
             for k, v in constants.items():
-                f.write("  %s = %s\n" % (k, v))
+                if str(v).startswith("<-"):
+                    f.write("  %s %s\n" % (k, v))
+                else:
+                    f.write("  %s = %s\n" % (k, v))
         f.write(body)
 
 
